@@ -8,7 +8,7 @@
 import UnicLocale.Lemmas.LiLoop
 import UnicLocale.Model.Locale
 
-namespace UL
+namespace UL.Ez
 
 /-! ### the per-token parsers are exact -/
 
@@ -711,4 +711,4 @@ theorem ExtMap.loop_single (fuel : Nat) (s : Nat) (r : List Bytes) (m : ExtMap) 
         · simp only [h4, if_true]
         · simp only [h4, Bool.false_eq_true, if_false]
 
-end UL
+end UL.Ez
